@@ -456,21 +456,24 @@ def stepImutes (cfg : Cfg) (σ : Inst) (op obs : List String) : Option (Inst × 
     let dumps0 := [σ.impl]
     let (σ3, dumps, msgs, out, tag) : Inst × List (List Mesh) × List Msg × MutesOut × String :=
       if k.fast then
-        let (σa, d, m1) := firePoint cfg false "q1" injs σ dumps0
-        let (σb, d, m2) := firePoint cfg false "q2" injs σa d
-        let (σc, d, m3) := firePoint cfg false "w" injs σb d
-        (σc, d, m1 ++ m2 ++ m3, ⟨σc.cache, false, []⟩, "fast-path")
+        let (σc, d, m) := ["q1", "e1", "q2", "e2", "w"].foldl (fun (acc : Inst × List (List Mesh) × List Msg) pt =>
+          let (σx, d, m) := firePoint cfg false pt injs acc.1 acc.2.1
+          (σx, d, acc.2.2 ++ m)) (σ, dumps0, [])
+        (σc, d, m, ⟨σc.cache, false, []⟩, "fast-path")
       else
         let hasOld := !k.ce.ids.isEmpty
         let hasNew := !k.upToDate
+        let two := hasOld && hasNew
         -- first query: the cached ids if there are any, else the since-scan
         let (σ1, d, m1) := firePoint cfg true "q1" injs σ dumps0
-        let k1 := if hasOld then mOld false env σ1.store now k else k
-        let (σ2, d, m2) := firePoint cfg (hasOld && hasNew) "q2" injs σ1 d
-        let k2 := mNew env σ2.store now l k1
-        let (σ3, d, m3) := firePoint cfg (!(k2.old ++ k2.new).isEmpty) "w" injs σ2 d
-        (σ3, d, m1 ++ m2 ++ m3, mEnd σ3.cache now l k2,
-          if hasOld && hasNew then "cached+since" else if hasOld then "recheck-cached" else "scan-since")
+        let k1 := if hasOld then mOld false env σ1.store now k else mNew env σ1.store now l k
+        let (σ1e, d, m1e) := firePoint cfg true "e1" injs σ1 d
+        let (σ2, d, m2) := firePoint cfg two "q2" injs σ1e d
+        let k2 := if two then mNew env σ2.store now l k1 else k1
+        let (σ2e, d, m2e) := firePoint cfg two "e2" injs σ2 d
+        let (σ3, d, m3) := firePoint cfg (!(k2.old ++ k2.new).isEmpty) "w" injs σ2e d
+        (σ3, d, m1 ++ m1e ++ m2 ++ m2e ++ m3, mEnd σ3.cache now l k2,
+          if two then "cached+since" else if hasOld then "recheck-cached" else "scan-since")
     let mby := joinList "." (sortStrs out.silencedBy)
     let implBy := splitList "." by_
     let brutes := dumps.map fun d => bruteMutedBy d now l
